@@ -185,6 +185,14 @@ pub fn explore(world: &World, rep: &Report, prop: &str, max_depth: Option<usize>
                 break;
             }
         }
+        // safety cap: a closed alphabet reaches its fixpoint within a few levels and a few thousand
+        // states; if the decoder's state keeps changing (e.g. a per-picture counter in the key) the
+        // search is cut here and reported as not having reached a fixpoint
+        if nodes.len() > 60_000 || depth >= 12 || frontier.len() * world.ops.len() > 400_000 {
+            fixpoint = false;
+            println!("NOTE: state graph did not close within 12 levels / 60000 states; search cut at depth {depth} with {} states", nodes.len());
+            break;
+        }
         // expand every frontier node with every operation, in parallel, deterministic order
         let work: Vec<(usize, usize)> = frontier.iter().flat_map(|&n| (0..world.ops.len()).map(move |o| (n, o))).collect();
         let results: Vec<Option<(K, Vec<usize>, bool)>> = work
@@ -442,6 +450,45 @@ pub fn run(tier: Tier) -> Report {
         rep.add_transitions(n as u64);
         rep.add_states(n as u64);
         rep.extra("long_history_pictures", json!(n));
+    }
+    // one reference kept alive while more than 2^16 disposable pictures are decoded: any counter or
+    // key of 8 or 16 bits that is advanced per picture wraps during this run
+    {
+        let n = if tier.thorough() { 140_000 } else { 70_000 };
+        let mut d = Dec::new(1);
+        let mut stats = CmpStats::default();
+        let i0 = Pic { hdr: shdr(32, 16, 0, 0, 5, 0), mbs: vec![flat_mb(0), flat_mb(1)] };
+        let mut ok = d.step(&i0, "C04", &mut stats).is_ok();
+        // the coded macroblock always carries a content the reference does not have, so a disposable
+        // picture that replaced the reference is visible in the very next picture
+        let pics: Vec<(Pic, Vec<u8>)> = (0..6usize)
+            .map(|k| {
+                let mbs = if k % 2 == 0 { vec![flat_mb(2), Mb::NotCoded] } else { vec![Mb::NotCoded, flat_mb(2)] };
+                let p = Pic { hdr: shdr(32, 16, 2, (k * 41) as u8, 5, 0), mbs };
+                let b = encode_bytes(&p);
+                (p, b)
+            })
+            .collect();
+        let mut i = 0usize;
+        while ok && i < n {
+            let (p, b) = &pics[i % pics.len()];
+            match d.step_bytes(p, b, "C04", &mut stats) {
+                Ok(Some(_)) => {}
+                Ok(None) => {
+                    rep.violation("C04/long-disposable-run-rejected", format!("disposable picture {i} of a long run over one reference rejected"), json!({"kind": "long-disposable-run", "index": i}));
+                    ok = false;
+                }
+                Err(f) => {
+                    rep.violation(&format!("{}[long-disposable-run]", f.sig.replace("sample-disposable", "wrong-prediction-source")), format!("disposable picture {i} of a long run over one reference: {}", f.what), json!({"kind": "long-disposable-run", "index": i}));
+                    ok = false;
+                }
+            }
+            d.fed.clear();
+            i += 1;
+        }
+        rep.add_transitions(i as u64);
+        rep.add_states(i as u64);
+        rep.extra("long_disposable_run_pictures", json!(i));
     }
     rep.extra("graphs", json!(summary));
     // the motion graph is depth-bounded by construction; the closed graphs reach a fixpoint
